@@ -227,7 +227,7 @@ func c30Trials(tier string, rng *Rng) []c30Trial {
 	engines := []string{"interp", "vm"}
 	budgets := []int{0, 300, 9000, 200000, 2500000}
 	if tier == "thorough" {
-		budgets = append(budgets, 30000000)
+		budgets = append(budgets, 8000000)
 		engines = append(engines, "vmpeep")
 	}
 	// histories: aborted by a limit, then executed again on the same node (Budget = number of abort points swept)
@@ -264,6 +264,12 @@ func c30Trials(tier string, rng *Rng) []c30Trial {
 		}
 	}
 	return out
+}
+
+// c30Watchdog: 180 s plus 60 microseconds per unit of the trial's budget (a budget of millions of metered operations is millions of
+// operations of real work, on a machine that other worker processes share): slow is not hung.
+func c30Watchdog(tr c30Trial) time.Duration {
+	return 180*time.Second + time.Duration(tr.Budget)*60*time.Microsecond
 }
 
 // heapGuard: metering that does not bound real memory is a violation of the property; rather than letting the kernel kill
@@ -314,10 +320,10 @@ func c30Worker(w *WorkerCtx) {
 		var o outT
 		select {
 		case o = <-ch:
-		case <-time.After(180 * time.Second):
+		case <-time.After(c30Watchdog(tr)):
 			// a hang is the violation
 			v := Violation{Property: "C30", Oracle: "terminates", Node: tr.Engine, Engine: tr.Engine, Key: "hang:" + tr.Program,
-				Detail: fmt.Sprintf("program %s on %s (gauge %s#%d, depth %d, limit %d) did not end within 180 s of wall-clock time", tr.Program, tr.Engine, tr.Site, tr.Budget, tr.Depth, tr.Limit)}
+				Detail: fmt.Sprintf("program %s on %s (gauge %s#%d, depth %d, limit %d) did not end within %v of wall-clock time", tr.Program, tr.Engine, tr.Site, tr.Budget, tr.Depth, tr.Limit, c30Watchdog(tr))}
 			rf := &ReplayFile{Property: "C30", Oracle: v.Oracle, VerifSeed: int64(w.Seed), Tier: w.Tier, Kind: "c30", Custom: cu, Violation: &v}
 			path := WriteReplay(filepath.Join(outDir(), "replay"), rf, sanitize(fmt.Sprintf("hang-%s-%s", tr.Program, tr.Engine)))
 			w.Emit(WorkResult{Kind: "item", Seed: uint64(i), Violations: []Violation{v}, Replay: path, Shape: fmt.Sprint(tr), NonTrivial: true})
